@@ -246,6 +246,10 @@ impl Prop for C03 {
             },
             history: vec![QOp::SweepItems, QOp::SweepItems, QOp::Reopen, QOp::SweepItems],
         },
+        // exactly as many blocks as the caching reader keeps (5000): the sweep fills the cache to the brim,
+        // the next query is a hit on a full cache; then one block more
+        Case { file: c01::with_block_size(c01::big_case(5000, 1, 1), 64), history: vec![QOp::SweepItems, QOp::Interval { c: 0, a: PosSel::Zero, b: PosSel::Frac(3) }, QOp::SweepItems, QOp::Interval { c: 0, a: PosSel::Frac(30_000), b: PosSel::Size }] },
+        Case { file: c01::with_block_size(c01::big_case(5001, 1, 1), 64), history: vec![QOp::SweepItems, QOp::Interval { c: 0, a: PosSel::Zero, b: PosSel::Frac(3) }, QOp::SweepItems] },
         // hundreds of chromosomes under one non-leaf index entry, every chromosome queried
         Case { file: c01::big_case(300, 1024, 300), history: vec![QOp::SweepItems, QOp::Reopen, QOp::SweepItems] },
         Case { file: c01::big_case(2000, 1, 1000), history: vec![QOp::SweepItems] },
